@@ -25,8 +25,8 @@ package main
 import (
 	"fmt"
 	"go/ast"
-	"go/parser"
 	"go/token"
+	"gtverif/internal/srcset"
 	"os"
 	"sort"
 	"strconv"
@@ -401,26 +401,36 @@ func typeString(e ast.Expr) string {
 func loadPkg(dir string) *pkg {
 	p := &pkg{fset: token.NewFileSet(), funcs: map[string]*ast.FuncDecl{}, meths: map[string]*ast.FuncDecl{},
 		consts: map[string]string{}, done: map[string]*fnInfo{}}
-	ents, err := os.ReadDir(dir)
+	// the package's file set as the compiler selects it (build constraints, Go version tags; the
+	// harness builds with the tag "verif"): code delivered in a sibling file or behind a constraint
+	// cannot leave the tie proved about dead code
+	sp, err := srcset.Load(dir, "verif")
 	if err != nil {
 		fail("%v", err)
 	}
-	var files []*ast.File
-	var names []string
-	for _, e := range ents {
-		n := e.Name()
-		if e.IsDir() || !strings.HasSuffix(n, ".go") || strings.HasSuffix(n, "_test.go") {
-			continue
+	p.fset = sp.Fset
+	files := sp.Files
+	// package-level variables must not be written after their declaration: CloneBase and what it
+	// calls (makeStack, NearestExternal, Metric, ...) are shared by all goroutines deriving from
+	// package-level factories, and an unsynchronised cache there is a data race
+	for _, f := range files {
+		for _, d := range f.Decls {
+			gd, ok := d.(*ast.GenDecl)
+			if !ok || gd.Tok != token.VAR {
+				continue
+			}
+			for _, sp2 := range gd.Specs {
+				for _, n := range sp2.(*ast.ValueSpec).Names {
+					if n.Name == "_" {
+						continue
+					}
+					if ws := sp.WritesTo(n.Name); len(ws) > 0 {
+						fail("untranslatable: package-level variable %s of package gerror is written after its declaration (%s): "+
+							"shared mutable state on the derivation path", n.Name, strings.Join(ws, ", "))
+					}
+				}
+			}
 		}
-		names = append(names, n)
-	}
-	sort.Strings(names)
-	for _, n := range names {
-		f, err := parser.ParseFile(p.fset, dir+"/"+n, nil, 0)
-		if err != nil {
-			fail("%v", err)
-		}
-		files = append(files, f)
 	}
 	p.consts = collectConsts(files)
 	sawStruct := false
@@ -432,8 +442,14 @@ func loadPkg(dir string) *pkg {
 					continue
 				}
 				if x.Recv == nil {
+					if _, dup := p.funcs[x.Name.Name]; dup && x.Name.Name != "init" {
+						fail("untranslatable: function %s is declared in more than one file of the build", x.Name.Name)
+					}
 					p.funcs[x.Name.Name] = x
 				} else if recvType(x) == "GError" {
+					if _, dup := p.meths[x.Name.Name]; dup {
+						fail("untranslatable: method GError.%s is declared more than once", x.Name.Name)
+					}
 					p.meths[x.Name.Name] = x
 				}
 			case *ast.GenDecl:
